@@ -563,6 +563,13 @@ impl Transaction {
             path.push(hop);
         }
 
+        // the payload of a golden ticket transaction is a 97-byte GoldenTicket
+        // (GoldenTicket::deserialize_from_net asserts this length)
+        if let TransactionType::GoldenTicket = transaction_type {
+            if message_len != 97 {
+                return Err(Error::from(ErrorKind::InvalidData));
+            }
+        }
         let mut transaction = Transaction::default();
         transaction.timestamp = timestamp;
         transaction.from = inputs;
